@@ -30,6 +30,18 @@ int main(int argc, char** argv) {
         s.n = (uint32_t)r.range(8, M.thorough() ? 96 : 64);
         if (r.chance(0.2)) s.n |= 1;
         s.nb = (uint32_t)r.range(2, 4);
+        // scale: one case in twelve is large in one dimension - more than 16 / 256 bunches (small mesh), more than 256 / 512 cells per axis,
+        // or more than 2^22 cells in the whole train (index types, grouped or threaded loops over bunches)
+        if ((c / 8) % 12 == 9) {
+            int which = (int)r.range(0, 5);
+            if (which == 0) { s.nb = (uint32_t)r.range(17, 23); s.n = (uint32_t)r.range(10, 20); }
+            else if (which == 1) { s.nb = (uint32_t)r.range(257, 300); s.n = (uint32_t)r.range(8, 12); }
+            else if (which == 2) { s.n = r.chance(0.5) ? 300 : 520; s.nb = 2; }
+            else if (which == 3) { s.nb = 33 + (uint32_t)r.range(0, 9); s.n = 12; }
+            else if (which == 4 && s.kind != K_WAKE) { s.n = 1024; s.nb = 5; }         // 5.2e6 cells
+            else { s.n = 260; s.nb = 3; }
+            M.ev("scale_cases");
+        }
         s.it = 1 + (int)((c / 8) % 4);
         if (r.chance(0.5)) { s.shiftx = r.uni(-3, 3); s.shifty = r.uni(-3, 3); }
         double amp = s.n / 4.0;
